@@ -343,6 +343,31 @@ FIXED += [
       "result": "v1"}),
 ]
 
+FIXED += [
+    ("F49-sql-group-by-stale-const-ref", "C07", "SQL GROUP BY keeps a key that is only constant by a stale type",
+     "SQL: group_by(<reference to a literal column held from before a union>) after the union emitted no GROUP BY",
+     {"tables": [TG], "steps": [S(), st("v1", "mutate", "v0", items=[["src", L("a")]]), st("v2", "mutate", "v0", items=[["src", L("b")]]),
+                                {"out": "v3", "verb": "union", "in": "v1", "right": "v2", "distinct": False},
+                                st("v4", "group_by", "v3", cols=[{"v": "v1", "n": "src"}]),
+                                st("v5", "summarize", "v4", items=[["n", F("count_star")]])], "result": "v5"}),
+]
+
+FIXED += [
+    ("F50-stale-col-dtype-after-union", "C12", "a held column reference takes its type from the table it is used on",
+     "reference to an Int column held from before a union with a Float column kept the static type Int (exported Float64)",
+     {"tables": [src([["id", "int64"], ["y", "float64"]], [[1, 0.5], [2, 1.5]])],
+      "steps": [S(), st("v1", "mutate", "v0", items=[["id", C("y")]]),
+                {"out": "v2", "verb": "union", "in": "v0", "right": "v1", "distinct": False},
+                st("v3", "mutate", "v2", items=[["d", V("v0", "id")]])], "result": "v3", "validate": "check"}),
+]
+
+FIXED += [
+    ("F51-sql-subquery-label-overwrite", "C11", "columns keep their own name outside of a SQL subquery",
+     "SQL: a column renamed inside a subquery (name collision with a hidden column) was not recognised as overwritten by a "
+     "later mutate -> extra column in the SELECT, export raised ValueError",
+     {"tables": [{"cols": [["id", "int64"], ["d", "datetime"], ["x", "datetime"]], "name": "t0", "rows": []}], "steps": [{"out": "v0", "table": "t0", "verb": "source"}, {"in": "v0", "items": [["b_t1", ["fn", "ge", [["fn", "count_star", [], {}], ["lit", 0]], {}]], ["q", ["lit", {"$d": "1974-12-25"}]]], "out": "v2", "verb": "summarize"}, {"in": "v2", "items": [["q", ["lit", 11.0, "float64"]]], "out": "v3", "verb": "mutate"}, {"in": "v3", "items": [["k", ["fn", "all", [["col", {"c": "b_t1"}]], {"filter": [["col", {"c": "b_t1"}], ["col", {"n": "b_t1", "v": "v2"}]]}]]], "out": "v4", "verb": "mutate"}, {"in": "v4", "items": [["q", ["col", {"n": "q", "v": "v2"}]], ["a_r", ["col", {"c": "q"}]]], "out": "v5", "verb": "mutate"}], "result": "v5"}),
+]
+
 
 def main():
     log = subprocess.run(["git", "-C", "/repo", "log", "--format=%h %s"], capture_output=True, text=True).stdout.splitlines()
